@@ -3,6 +3,7 @@
 #include <symengine/constants.h>
 #include <symengine/matrices/matrix_mul.h>
 #include <symengine/matrices/zero_matrix.h>
+#include <symengine/matrices/size.h>
 #include <symengine/matrices/identity_matrix.h>
 #include <symengine/matrices/diagonal_matrix.h>
 #include <symengine/matrices/immutable_dense_matrix.h>
@@ -195,10 +196,19 @@ RCP<const MatrixExpr> matrix_mul(const vec_basic &factors)
 
     check_matching_mul_sizes(expanded);
 
-    // Handle ZeroMatrix first
-    for (auto &factor : factors) {
+    // Handle ZeroMatrix first: the product is the zero matrix with the rows
+    // of the first and the columns of the last factor
+    for (auto &factor : expanded) {
         if (is_a<ZeroMatrix>(*factor)) {
-            return rcp_static_cast<const MatrixExpr>(factor);
+            auto rows = size(down_cast<const MatrixExpr &>(*expanded.front()))
+                            .first;
+            auto cols
+                = size(down_cast<const MatrixExpr &>(*expanded.back())).second;
+            if (rows.is_null() or cols.is_null()) {
+                // outer dimensions unknown (matrix symbols)
+                return rcp_static_cast<const MatrixExpr>(factor);
+            }
+            return zero_matrix(rows, cols);
         }
     }
 
